@@ -107,6 +107,7 @@ fn setup(case: &CancelCase) -> Result<Setup, Violation> {
     let sim = Sim::new(&cfg);
     sim.install_clock_here();
     let store = SimStore::new(sim.clone(), InMemory::new());
+    store.set_response_delay(simcore::store::seeded_response_delay(case.seed));
     let mut world = World::boot(&store, &case.knobs).map_err(|e| violation!("cancel.boot-failed", "creation failed: {e:?}"))?;
     let mut model = DocModel::default();
     let mut max_id = 0;
@@ -330,8 +331,21 @@ fn run_one(case: &CancelCase, k: u64, rep: &mut RunReport, sig: &mut Sig) -> Res
             block(s.world.db.close_collection(COLL)).map_err(|e| violation!("cancel.setup", "close_collection failed: {e:?}"))?;
             s.sim.set_park(true);
             let db: AndaDB = s.world.db.clone();
-            let ns = *new_set;
-            let r = s.sim.run1(cancel_at(async { open_collection(&db, ns).await }, k)).map_err(|o| violation!("c06.liveness", "{ctx}: scheduler outcome {o:?}"))?;
+            let cur = knobs.indexes;
+            // indexes leaving the set are removed, indexes entering it are created and backfilled
+            let ns = indexes_after(cur, &DOp::Reindex { set: *new_set });
+            let reindex = async |db: &AndaDB| {
+                db.open_or_create_collection(
+                    SimDoc::schema().expect("schema"),
+                    anda_db::collection::CollectionConfig { name: COLL.to_string(), description: "sim docs".to_string() },
+                    async |c| {
+                        remove_indexes(c, cur & !ns).await?;
+                        install_indexes(c, ns).await
+                    },
+                )
+                .await
+            };
+            let r = s.sim.run1(cancel_at(async { reindex(&db).await }, k)).map_err(|o| violation!("c06.liveness", "{ctx}: scheduler outcome {o:?}"))?;
             s.sim.set_park(false);
             if let Ok(res) = r {
                 res.map_err(|e: DBError| violation!("c06.transition-failed", "{ctx}: open completed with error {e:?}"))?;
@@ -340,7 +354,7 @@ fn run_one(case: &CancelCase, k: u64, rep: &mut RunReport, sig: &mut Sig) -> Res
             rep.fire("cancellation", 1);
             sig.add(k);
             // nothing holds a handle; opening again must work and satisfy C01/C02
-            let c2 = block(open_collection(&s.world.db, ns)).map_err(|e| violation!("c06.reopen-failed", "{ctx}: opening again after a cancelled open (index create/backfill) failed: {e:?}"))?;
+            let c2 = block(reindex(&s.world.db)).map_err(|e| violation!("c06.reopen-failed", "{ctx}: opening again after a cancelled open (index create/backfill) failed: {e:?}"))?;
             let obs = block(observe(&c2, ns | (knobs.indexes & 0), &vocab, s.max_id + 1)).map_err(|mut v| {
                 v.message = format!("{ctx} (opened again): {}", v.message);
                 v
